@@ -430,6 +430,85 @@ theorem C03_status_partial (P : Program) (F : Flags) (n : Nat) (tr : List Label)
     (ht : ∃ k, x.kind = .top k) (hw : x.waitsFor = none) : ∀ m, x.res ≠ .exit m :=
   (StatusInv_sound P F n tr c h a x hx).2.2 ((C03_top_is_direct P F n tr c h a x hx).mpr ht) hw
 
+theorem isOk_eq_ok (r : Res) (h : r.isOk = true) : r = .ok := by cases r <;> first | rfl | cases h
+
+theorem parResults_one (c : Config) (rs : List Res) (h : parResults c 1 0 = some rs) :
+    ∃ id r, c.tops.lookup 0 = some id ∧ kidDone c id = some r ∧ rs = [r] := by
+  simp only [parResults] at h
+  split at h
+  · cases h
+  · rename_i id hid
+    split at h
+    · rename_i r rs' hr hrs
+      cases hrs; cases h
+      exact ⟨id, r, hid, hr, rfl⟩
+    · cases h
+
+theorem seqResult_one (c : Config) (r' : Res) (h : seqResult c 1 0 = some r') :
+    ∃ id, c.tops.lookup 0 = some id ∧ kidDone c id = some r' := by
+  simp only [seqResult] at h
+  split at h
+  · cases h
+  · rename_i id hid
+    split at h
+    · cases h
+    · rename_i r hr
+      split at h
+      · rename_i hok
+        cases h
+        exact ⟨id, hid, by rw [hr, isOk_eq_ok _ hok]⟩
+      · split at h
+        · cases h; exact ⟨id, hid, hr⟩
+        · cases h
+
+/-- **the invocation's status is the named task's.** For `task t` (one task on the command
+line): a complete run that passes `finalCheck` — the check the correspondence harness applies
+to the error `Run` really returned — returned exactly the result of the top-level activation
+of `t`; `main` exits with `exitCode` of it. -/
+theorem C03_invocation_result_single (P : Program) (F : Flags) (t : Nat) (c : Config) (result : Res)
+    (hpre : precheck P [t] = none) (h : finalCheck P F [t] c result = none) :
+    ∃ id, c.tops.lookup 0 = some id ∧ kidDone c id = some result := by
+  unfold finalCheck at h
+  rw [hpre] at h
+  simp only [List.length_singleton] at h
+  split at h
+  · cases h
+  · split at h
+    · cases h
+    · cases hpar : F.parallel with
+      | true =>
+        simp only [hpar, if_true] at h
+        cases hp : parResults c 1 0 with
+        | none => simp [hp] at h
+        | some rs =>
+          obtain ⟨id, r, h1, h2, rfl⟩ := parResults_one c rs hp
+          simp only [hp, List.all_cons, List.all_nil, Bool.and_true, List.contains_cons, List.contains_nil,
+            Bool.or_false] at h
+          refine ⟨id, h1, ?_⟩
+          rw [h2]
+          cases hok : result.isOk with
+          | true =>
+            simp only [hok, if_true] at h
+            split at h
+            · rename_i hr; rw [isOk_eq_ok _ hok, isOk_eq_ok _ hr]
+            · cases h
+          | false =>
+            simp only [hok, Bool.false_eq_true, if_false] at h
+            split at h
+            · rename_i hr
+              have : result = r := by simpa using hr
+              rw [this]
+            · cases h
+      | false =>
+        simp only [hpar, Bool.false_eq_true, if_false] at h
+        cases hq : seqResult c 1 0 with
+        | none => simp [hq] at h
+        | some r' =>
+          simp only [hq] at h
+          split at h
+          · rename_i he; subst he; exact seqResult_one c _ hq
+          · cases h
+
 /-- The full statement — *no* top-level call ever returns a bare exit status — is what the
 property demands ("201, or the command's own status with `--exit-code`, wherever the failing
 command sits").  It is **false** of the executor: a top-level call that becomes a waiter of an
